@@ -6,6 +6,8 @@
 #if defined(RKCOMMON_TASKING_TBB)
 #define __TBB_NO_IMPLICIT_LINKAGE 1
 #define __TBBMALLOC_NO_IMPLICIT_LINKAGE 1
+#define TBB_PREVIEW_GLOBAL_CONTROL 1
+#include <tbb/global_control.h>
 #include <tbb/task_group.h>
 #elif defined(RKCOMMON_TASKING_OMP)
 #include <thread>
@@ -49,7 +51,13 @@ namespace rkcommon {
       inline AsyncTaskImpl<TASK_T>::AsyncTaskImpl(TASK_T &&fcn)
 #if defined(RKCOMMON_TASKING_TBB)
       {
-        taskGroup.run(std::forward<TASK_T>(fcn));
+        // With a single tasking thread no worker exists that could pick up a
+        // spawned task: run it right away, as the Debug (serial) backend does
+        if (tbb::global_control::active_value(
+                tbb::global_control::max_allowed_parallelism) <= 1)
+          fcn();
+        else
+          taskGroup.run(std::forward<TASK_T>(fcn));
       }
 #elif defined(RKCOMMON_TASKING_OMP)
           : thread(std::forward<TASK_T>(fcn))
